@@ -367,7 +367,7 @@ class Sys(object):
             cnt = [c._local_objects._dict[idp][1] for idp in c._local_objects._dict if idp[2] in ids]
             out.append(("leak-at-quiescence" + (":after-a-send-that-failed-to-encode" if self.bad_sends else ""), "peer holds nothing and all notices were processed, but O's table still "
                         "references object(s) %r (counts %r)" % (sorted(left), cnt)))
-        if self.kind == "thing" and not left:
+        if self.kind.startswith("thing") and not left:
             refs = dict((k, weakref.ref(o)) for k, o in self.objs.items())
             self.osvc.given[:] = []
             self.pending[:] = []
@@ -449,6 +449,10 @@ CONFIGS = {
         ("thing/1obj/2sends", "thing", 1, 2, 1, True, 40),
         ("list/1obj/1send/fetch=2/shapes=one", "list", 1, 1, 1, False, 40),
         ("list/1obj/2sends/badsend=1/shapes=one", "list", 1, 2, 0, False, 40),
+        # user class whose proxy type the peer does NOT know yet: the first delivery makes the peer ask about the class, and
+        # whatever is queued behind it is processed inside that wait
+        ("thing-cold/1obj/3sends/shapes=one", "thing-cold", 1, 3, 1, False, 40),
+        ("thing-cold/1obj/1send/fetch=3/shapes=one", "thing-cold", 1, 1, 0, False, 40),
     ],
     "thorough": [
         ("list/1obj/4sends", "list", 1, 4, 2, True, 60),
@@ -461,6 +465,8 @@ CONFIGS = {
         ("thing/1obj/1send/fetch=2/shapes=one", "thing", 1, 1, 1, False, 60),
         ("list/1obj/2sends/badsend=2/shapes=one,tup2", "list", 1, 2, 1, False, 60),
         ("thing/1obj/2sends/badsend=1/shapes=one", "thing", 1, 2, 0, False, 60),
+        ("thing-cold/1obj/3sends/shapes=one,tup2", "thing-cold", 1, 3, 1, True, 60),
+        ("thing-cold/2obj/2sends/shapes=one", "thing-cold", 2, 2, 0, False, 60),
     ],
 }
 
@@ -775,6 +781,6 @@ def main(tier, replay_obj=None):
         "each side processes its incoming frames in FIFO order; delivery of the two directions is interleaved arbitrarily",
         "sequence numbers are dropped from the canonical state (opaque correlation tokens; futures are isomorphic under renaming)",
         "proxy finalizers run at the reference drop the harness causes (gc disabled during executions)",
-        "user-class variant: the peer's class cache is warmed in setup, so unboxing issues no nested class inspection (that path is C03's)",
+        "user-class variants: 'thing' warms the peer's class cache in setup, 'thing-cold' does not (the first delivery issues a nested class inspection, during which queued messages are processed)",
     ]
     return res.finish()
